@@ -63,3 +63,9 @@ def task_count(j, _seen=[]):
     _seen.append(j)
     x = len(_seen)
     return (j, x)
+
+
+def task_read_plain(j):
+    tag, sh, plain = G
+    x = float(plain[0])
+    return (j, x)
